@@ -1,9 +1,277 @@
+import SwayVerif.Model.DataSection
 import SwayVerif.Driver.Util
-/-! Driver for C13 (stub — replace `answer`; keep `run`). -/
-namespace SwayVerif.Driver.C13
-open SwayVerif.Driver
+/-!
+Driver for C13. Cases (see `harness/src/bin/sv_c13.rs`):
 
-def answer (_line : String) : String := "unimplemented agree=0 prop=0"
+* `layout <dop>… ;; ids=… n=… bytes=<hex> ents=<off:hex,…>` | `;; panic`
+* `code <dop>… | <cop>… ;; ok len=… n=… eoffs=… emits=… named=… data=<hex>` | `;; panic`
+* `base seed=… t=… d=<hex,…> offs=<o,…> len=<n> ;; at=<hex,…> observed=<hex,…>`
+* `patch seed=… t=… d=<hex,…> j=<j> new=<hex> ;; observed=<hex,…>`
+* `build seed=… t=… d=… ;; panic|error`
+
+`dop` = `I/<name|->/<pad>/<datum>` | `P/<hex>`; `pad` = `-`|`L<n>`|`R<n>`;
+`datum` = `b/<hex>` | `w/<hex>` | `a/<hex|->` | `s/<hex|->` | `c/<k>(/<pad>/<datum>){k}`;
+`cop` = `N` | `B<n>` | `L<c|n><idx>` | `A<c|n><idx>`.
+-/
+namespace SwayVerif.Driver.C13
+open SwayVerif.DataSection SwayVerif.Driver
+
+def parsePad (s : String) : Option (Option Pad) :=
+  if s = "-" then some none else
+  match s.toList with
+  | 'L' :: r => (String.ofList r).toNat?.map (fun n => some (.left n))
+  | 'R' :: r => (String.ofList r).toNat?.map (fun n => some (.right n))
+  | _ => none
+
+mutual
+partial def parseDatum (f : Array String) (i : Nat) : Option (Datum × Nat) := do
+  let k ← f[i]?
+  let v ← f[i+1]?
+  match k with
+  | "b" => let n ← parseHex? v; pure (.byte (UInt8.ofNat n), i + 2)
+  | "w" => let n ← parseHex? v; pure (.word n, i + 2)
+  | "a" => let bs ← hexBytes? v; pure (.byteArray bs, i + 2)
+  | "s" => let bs ← hexBytes? v; pure (.slice bs, i + 2)
+  | "c" => let n ← v.toNat?; let (is, j) ← parseItems f (i + 2) n; pure (.coll is, j)
+  | _ => none
+partial def parseItems (f : Array String) (i : Nat) : Nat → Option (Items × Nat)
+  | 0 => some (.nil, i)
+  | n + 1 => do
+    let p ← (f[i]?).bind parsePad
+    let (d, j) ← parseDatum f (i + 1)
+    let (rest, k) ← parseItems f j n
+    pure (.cons d (p.getD (defaultPad d)) rest, k)
+end
+
+def parseDop (t : String) : Option DOp := do
+  let f := (t.splitOn "/").toArray
+  match f[0]? with
+  | some "P" => let v ← (f[1]?).bind parseHex?; pure (.pointer v)
+  | some "I" =>
+    let nm ← f[1]?
+    let p ← (f[2]?).bind parsePad
+    let (d, _) ← parseDatum f 3
+    pure (.insert (Entry.new d (if nm = "-" then none else some nm.toList) p))
+  | _ => none
+
+def parseId (cs : List Char) : Option DataId :=
+  match cs with
+  | 'c' :: r => (String.ofList r).toNat?.map (⟨true, ·⟩)
+  | 'n' :: r => (String.ofList r).toNat?.map (⟨false, ·⟩)
+  | _ => none
+
+def parseCop (t : String) : Option COp :=
+  match t.toList with
+  | ['N'] => some (.fixed 4)
+  | 'B' :: r => (String.ofList r).toNat?.map (fun n => .fixed (4 * n))
+  | 'L' :: r => (parseId r).map .load
+  | 'A' :: r => (parseId r).map .addr
+  | _ => none
+
+def mapM? {α β} (f : α → Option β) : List α → Option (List β)
+  | [] => some []
+  | a :: as => do let b ← f a; let bs ← mapM? f as; pure (b :: bs)
+
+def showId (id : DataId) : String := (if id.conf then "c" else "n") ++ toString id.idx
+
+def commaList (xs : List String) : String := if xs.isEmpty then "-" else ",".intercalate xs
+
+def kvOf (ts : List String) (k : String) : Option String :=
+  (ts.find? (fun t => t.startsWith (k ++ "="))).map (fun t => (t.drop (k.length + 1)).toString)
+
+def splitComma (s : String) : List String := if s = "-" then [] else s.splitOn ","
+
+/-- `e` = empty byte string inside a comma list -/
+def hexItem? (s : String) : Option (List Byte) := if s = "e" then some [] else hexBytes? s
+def showHexItem (b : List Byte) : String := if b.isEmpty then "e" else showHexBytes b
+def hexList? (s : String) : Option (List (List Byte)) := mapM? hexItem? (splitComma s)
+
+def showEmit : Emit → String
+  | .fixed n => s!"f{n}"
+  | .addi i => s!"i{i}"
+  | .movi i => s!"m{i}"
+  | .lb i => s!"b{i}"
+  | .lw i => s!"w{i}"
+  | .ptrLoad s p => s!"p{s}:{p}"
+
+def parseEmit (t : String) : Option Emit :=
+  match t.toList with
+  | 'f' :: r => (String.ofList r).toNat?.map .fixed
+  | 'i' :: r => (String.ofList r).toNat?.map .addi
+  | 'm' :: r => (String.ofList r).toNat?.map .movi
+  | 'b' :: r => (String.ofList r).toNat?.map .lb
+  | 'w' :: r => (String.ofList r).toNat?.map .lw
+  | 'p' :: r => match (String.ofList r).splitOn ":" with
+    | [a, b] => do let a ← a.toNat?; let b ← b.toNat?; pure (.ptrLoad a b)
+    | _ => none
+  | _ => none
+
+def showPanic : Panic → String
+  | .missingData => "missingData" | .arith => "arith" | .imm12 => "imm12" | .pointerMissing => "pointerMissing"
+  | .sizeAssert => "sizeAssert" | .misaligned => "misaligned" | .u32 => "u32"
+
+def insertSorted {α} (lt : α → α → Bool) (a : α) : List α → List α
+  | [] => [a]
+  | b :: bs => if lt a b then a :: b :: bs else b :: insertSorted lt a bs
+def sortBy {α} (lt : α → α → Bool) (l : List α) : List α := l.foldr (insertSorted lt) []
+
+/-- BTreeMap<String, u64>: later bindings override, iteration in key order -/
+def btree (l : List (String × Nat)) : List (String × Nat) :=
+  let dedup := l.foldl (fun acc p => (acc.filter (·.1 ≠ p.1)) ++ [p]) []
+  sortBy (fun a b => a.1 < b.1) dedup
+
+def sizeClass (n : Nat) : String :=
+  if n = 0 then "0" else if n ≤ 8 then "le8" else if n ≤ 64 then "le64" else if n ≤ 4095 then "le4095" else "gt4095"
+
+/-! ### layout lines -/
+
+def answerLayout (c i : List String) : String :=
+  match mapM? parseDop c with
+  | none => "bad-op agree=0 prop=0"
+  | some ops =>
+    let (ds, ids) := ({} : DS).run ops
+    let mIds := commaList (ids.map showId)
+    let mBytes := ds.serialize
+    let all := ds.all
+    let mEnts := (List.range all.length).map fun k => (ds.offsetOfAbs k, (all[k]?.map Entry.toBytes).getD [])
+    let mEntsS := commaList (mEnts.map fun (o, b) => s!"{o}:{showHexBytes b}")
+    let names : List (Option Name) := ops.map fun
+      | .insert e => e.name
+      | .pointer _ => none
+    match i with
+    | ["panic"] => s!"ids={mIds} agree=0 prop=1 outcome=panic"
+    | _ =>
+      let parsed : Option (List DataId × Nat × List Byte × List (Nat × List Byte)) := do
+        let idsS ← kvOf i "ids"
+        let iIds ← mapM? (fun s => parseId s.toList) (splitComma idsS)
+        let n ← (kvOf i "n").bind (·.toNat?)
+        let bytes ← (kvOf i "bytes").bind hexBytes?
+        let ents ← (kvOf i "ents").bind fun s => mapM? (fun t => match t.splitOn ":" with
+          | [o, b] => do let o ← o.toNat?; let b ← hexBytes? b; pure (o, b)
+          | _ => none) (splitComma s)
+        pure (iIds, n, bytes, ents)
+      match parsed with
+      | none => "bad-impl agree=0 prop=0"
+      | some (iIds, n, bytes, ents) =>
+        let agree := iIds == ids && n == ds.nonConf.length && bytes == mBytes && ents == mEnts
+        let prop := layoutOk bytes 0 ents && idsDistinct (names.zip iIds)
+        let merged := decide (ents.length < ops.length)
+        s!"ids={mIds} n={ds.nonConf.length} ents={mEntsS} agree={b01 agree} prop={b01 prop} merged={b01 merged} nconf={ds.conf.length} size={sizeClass bytes.length}"
+
+/-! ### code lines -/
+
+def resolvesImpl (len n : Nat) (eoffs : List Nat) (dataLen : Nat) (data : List Byte) (pos : Nat) (op : COp) (e : Emit) : Bool :=
+  let off (id : DataId) : Nat := eoffs.getD (if id.conf then id.idx + n else id.idx) dataLen
+  match op, e with
+  | .fixed a, .fixed b => a == b
+  | .addr id, .addi imm => imm == off id
+  | .addr id, .movi imm => imm == off id
+  | .load id, .lb imm => imm == off id
+  | .load id, .lw imm => imm * 8 == off id
+  | .load id, .ptrLoad slot ptr => slice data (slot * 8) 8 == be64 ptr && ptr + pos + 4 == len + off id
+  | _, _ => false
+
+def allResolveImpl (len n : Nat) (eoffs : List Nat) (dataLen : Nat) (data : List Byte) : Nat → List COp → List Emit → Bool
+  | _, [], [] => true
+  | pos, op :: ops, e :: es => resolvesImpl len n eoffs dataLen data pos op e && allResolveImpl len n eoffs dataLen data (pos + e.size) ops es
+  | _, _, _ => false
+
+def answerCode (c i : List String) : String :=
+  let d := c.takeWhile (· ≠ "|")
+  let k := (c.dropWhile (· ≠ "|")).drop 1
+  match mapM? parseDop d, mapM? parseCop k with
+  | some dops, some cops =>
+    let ds0 := (({} : DS).run dops).1
+    -- `to_bytecode_mut` starts from a data section whose `pointer_id` map is whatever the history left
+    let m := toBytecode ds0 cops
+    let nLoad := (cops.filter fun | .load _ => true | _ => false).length
+    let nAddr := (cops.filter fun | .addr _ => true | _ => false).length
+    match m, i with
+    | .panic p, ["panic"] => s!"panic agree=1 prop=1 outcome=panic why={showPanic p} loads={nLoad} addrs={nAddr}"
+    | .panic p, _ => s!"panic agree=0 prop=1 outcome=modelpanic why={showPanic p}"
+    | .ok b, ["panic"] => s!"ok len={b.codeLen} agree=0 prop=1 outcome=implpanic"
+    | .ok b, _ =>
+      let parsed : Option (Nat × Nat × List Nat × List Emit × List (String × Nat) × List Byte) := do
+        let len ← (kvOf i "len").bind (·.toNat?)
+        let n ← (kvOf i "n").bind (·.toNat?)
+        let eoffs ← (kvOf i "eoffs").bind fun s => mapM? (·.toNat?) (splitComma s)
+        let emits ← (kvOf i "emits").bind fun s => mapM? parseEmit (splitComma s)
+        let named ← (kvOf i "named").bind fun s => mapM? (fun t => match t.splitOn ":" with
+          | [a, o] => o.toNat?.map (fun o => (a, o))
+          | _ => none) (splitComma s)
+        let data ← (kvOf i "data").bind hexBytes?
+        pure (len, n, eoffs, emits, named, data)
+      match parsed with
+      | none => "bad-impl agree=0 prop=0"
+      | some (len, n, eoffs, emits, named, data) =>
+        let all := b.ds.all
+        let mEoffs := (List.range all.length).map b.ds.offsetOfAbs
+        let mNamed := btree ((namedOffsets b).filterMap fun (nm, o) => nm.map fun x => (String.ofList x, o))
+        let cops' := if emits.length = cops.length + 1 then cops ++ [.fixed 4] else cops
+        let agree := len == b.codeLen && n == b.ds.nonConf.length && eoffs == mEoffs && emits == b.emits
+          && named == mNamed && data == b.ds.serialize
+        let namedOk := named.all fun (_, o) => (eoffs.drop n).any fun eo => o == len + eo
+        let prop := allResolveImpl len n eoffs data.length data 0 cops' emits && namedOk && emitsSize emits == len
+        let long := b.emits.any fun | .movi _ => true | _ => false
+        let ptrs := b.emits.any fun | .ptrLoad _ _ => true | _ => false
+        s!"ok len={b.codeLen} emits={commaList (b.emits.map showEmit)} agree={b01 agree} prop={b01 prop} outcome=ok loads={nLoad} addrs={nAddr} long={b01 long} ptr={b01 ptrs} size={sizeClass data.length}"
+  | _, _ => "bad-op agree=0 prop=0"
+
+/-! ### end-to-end lines -/
+
+def offsetsOk (len : Nat) : Nat → List (Nat × Nat) → Bool
+  | lo, [] => lo ≤ len
+  | lo, (o, l) :: r => lo ≤ o && o % 8 == 0 && o + l ≤ len && offsetsOk len (o + l) r
+
+/-- model's prediction: configurables are consecutive entries, each starting at the next word boundary -/
+def consecutive : List (Nat × Nat) → Bool
+  | (o, l) :: (o', l') :: r => o' == roundUp8 (o + l) && consecutive ((o', l') :: r)
+  | _ => true
+
+def answerBase (c i : List String) : String :=
+  let parsed : Option (List (List Byte) × List Nat × Nat) := do
+    let d ← (kvOf c "d").bind hexList?
+    let offs ← (kvOf c "offs").bind fun s => mapM? (·.toNat?) (splitComma s)
+    let len ← (kvOf c "len").bind (·.toNat?)
+    pure (d, offs, len)
+  match parsed with
+  | none => "bad-case agree=0 prop=0"   -- includes a configurable missing from the ABI (`none` offset)
+  | some (d, offs, len) =>
+    let at? := (kvOf i "at").bind hexList?
+    let obs? := (kvOf i "observed").bind hexList?
+    let sorted := sortBy (fun a b => a.1 < b.1) (offs.zip (d.map List.length))
+    let lay := offs.length == d.length && offsetsOk len 0 sorted
+    let prop := lay && at? == some d && obs? == some d
+    let agree := prop && consecutive sorted
+    s!"observed={commaList (d.map showHexItem)} agree={b01 agree} prop={b01 prop} kind=base ncfg={d.length} ran={b01 obs?.isSome}"
+
+def answerPatch (c i : List String) : String :=
+  let parsed : Option (List (List Byte) × Nat × List Byte) := do
+    let d ← (kvOf c "d").bind hexList?
+    let j ← (kvOf c "j").bind (·.toNat?)
+    let new ← (kvOf c "new").bind hexItem?
+    pure (d, j, new)
+  match parsed with
+  | none => "bad-case agree=0 prop=0"
+  | some (d, j, new) =>
+    let expect := d.set j new
+    let obs? := (kvOf i "observed").bind hexList?
+    let prop := match obs? with
+      | some obs => patchObserved d j new obs
+      | none => false
+    let nontriv := decide (d[j]? ≠ some new)
+    let others := decide (d.length > 1)
+    s!"observed={commaList (expect.map showHexItem)} agree={b01 prop} prop={b01 prop} kind=patch nontriv={b01 nontriv} others={b01 others} newlen={sizeClass new.length} ran={b01 obs?.isSome}"
+
+def answer (line : String) : String :=
+  let (c, i) := splitCase line
+  match c with
+  | "layout" :: ops => answerLayout ops i
+  | "code" :: rest => answerCode rest i
+  | "base" :: rest => answerBase rest i
+  | "patch" :: rest => answerPatch rest i
+  | "build" :: _ => s!"built agree=0 prop=0 kind=build outcome={(i.headD "?")}"
+  | _ => "bad-op agree=0 prop=0"
 
 def run : IO Unit := do
   lineLoop (← IO.getStdin) (← IO.getStdout) answer
